@@ -19,7 +19,7 @@ MANIFEST = {
             "(get_uri_path_eq_spec, get_query_eq_spec, escape_tables_match_rfc); those strings are injective modulo the single "
             "empty segment (uri_path_injective, query_injective) and feed back to the same options, also end to end from a URI "
             "(path_feeds_back, query_feeds_back, path_roundtrip, query_roundtrip, uri_options_roundtrip); no transcribed "
-            "function reads outside the length-delimited input for any input and any output buffer size (no_overread). M is "
+            "function reads outside the length-delimited input for any input and any output buffer size (no_overread, uri_no_overread). M is "
             "tied to the compiled code by differential runs (I vs M vs S) under ASan/UBSan with exact-size input and output "
             "buffers.",
     "note": "Trusted: Lean kernel (+ propext, Classical.choice, Quot.sound), the T1 extractor and T2 harness/generators, the hand "
@@ -41,7 +41,7 @@ REQUIRED_THEOREMS = ["escape_tables_match_rfc", "get_uri_path_eq_spec", "get_que
                      "split_path_buf_eq_spec", "split_query_buf_eq_spec", "split_buf_eq_spec_3n",
                      "split_buf_documented_bound", "split_buf_never_overflows", "split_buf_truncation", "split_buf_omits_only",
                      "uri_into_optlist_eq_spec", "uri_to_options_eq_spec", "uri_options_defined",
-                     "path_roundtrip", "query_roundtrip", "uri_options_roundtrip"]
+                     "path_roundtrip", "query_roundtrip", "uri_options_roundtrip", "uri_no_overread"]
 RULE = ("byte strings over an alphabet biased to / % & ? # . [ ] : and hex digits (plus blind bytes) as path / query / URI input, each "
         "in an exact-size heap block without NUL; well-formed and malformed escapes at every position incl. the last two bytes; "
         "literal and percent-encoded dot segments; empty segments; all output buffer sizes 0..need+2 for a sample; segment lists "
